@@ -114,6 +114,30 @@ type point struct {
 	InflightAt  int      `json:"inflight_at"`
 	Op          string   `json:"op"`
 	Obligations [][2]int `json:"obligations"`
+	// Last: unit (real names, e.g. i/m/standard/0, keys) -> [action, nth within its step, step]
+	// of the last state-changing syscall on that unit before the crash point
+	Last map[string][]interface{} `json:"last"`
+}
+
+// lastOn returns the action of the last syscall that changed the file(s) of an abstract
+// unit before the crash point ("none" when the history has not touched it).
+func (p point) lastOn(u string) string {
+	parts := strings.Split(u, "/")
+	real := u
+	if parts[0] == "keys" {
+		real = "keys"
+	} else if len(parts) == 4 {
+		if r, ok := viewName[parts[2]]; ok {
+			parts[2] = r
+		}
+		real = strings.Join(parts, "/")
+	}
+	if l, ok := p.Last[real]; ok && len(l) > 0 {
+		if s, ok := l[0].(string); ok {
+			return s
+		}
+	}
+	return "none"
 }
 
 type pointsFile struct {
@@ -282,6 +306,18 @@ func twoRows(s string) (string, bool) {
 	return "", false
 }
 
+// fieldOfUnit names the field of a unit ("i/m/std/0" -> "m", "keys/col" -> "keys").
+func fieldOfUnit(u string) string {
+	parts := strings.Split(u, "/")
+	if parts[0] == "keys" {
+		return "keys"
+	}
+	if len(parts) > 1 {
+		return parts[1]
+	}
+	return u
+}
+
 func isIntUnit(u string) bool   { return strings.HasPrefix(u, idxI+"/v/") }
 func isMutexUnit(u string) bool { return strings.HasPrefix(u, idxI+"/m/") }
 
@@ -363,7 +399,9 @@ func judge(beh behav.Behaviour, S []map[string]string, p point, ob [2]int, rec r
 				sym = "mutex_two_rows"
 			}
 		}
-		return false, map[string]string{"op": op, "crash_after": p.After, "symptom": sym},
+		// crash_after names the last syscall that changed this unit (not the globally last
+		// one, which may belong to a background snapshot of another fragment)
+		return false, map[string]string{"op": op, "field": fieldOfUnit(u), "crash_after": p.lastOn(u), "symptom": sym},
 			fmt.Sprintf("unit %s recovered as [%s]; acknowledged state [%s], with the in-flight write [%s]", u, r, a[u], b[u])
 	}
 	return true, nil, ""
@@ -391,7 +429,9 @@ func runHistory(work, base string, beh behav.Behaviour, keepEvents bool) (*histO
 	if err := os.MkdirAll(work, 0o777); err != nil {
 		return nil, err
 	}
-	defer os.RemoveAll(work)
+	if os.Getenv("VERIF_C09_KEEP") == "" {
+		defer os.RemoveAll(work)
+	}
 	run := filepath.Join(work, "run")
 	if err := copyDir(base, run); err != nil {
 		return nil, fmt.Errorf("copy base: %v", err)
@@ -534,11 +574,20 @@ func TestC09(t *testing.T) {
 	if scratch == "" {
 		scratch = os.TempDir()
 	}
+	// the check hands over a tmpfs work directory when there is one (the histories are
+	// fsync-heavy); it is gone when a replay runs, which then uses the scratch directory
+	if w := os.Getenv("VERIF_C09_WORK"); w != "" {
+		if fi, err := os.Stat(w); err == nil && fi.IsDir() {
+			scratch = w
+		}
+	}
 	root, err := os.MkdirTemp(scratch, "c09-")
 	if err != nil {
 		t.Fatal(err)
 	}
-	defer os.RemoveAll(root)
+	if os.Getenv("VERIF_C09_KEEP") == "" {
+		defer os.RemoveAll(root)
+	}
 	base := filepath.Join(root, "base")
 	if err := makeBase(base); err != nil {
 		res.SetInconclusive("creating the base image failed: " + err.Error())
